@@ -72,6 +72,23 @@ def traces():
         evs.append({"op": "add_slide", "layout": 1})
         evs.append({"op": "checkpoint", "sink": "seekable"})
         out.append(T("corpus-%s" % d, evs, start=[{"deck": d}]))
+        # every kind of ADDITION on every slide the deck brings (timing trees, extension lists, backgrounds ... are PowerPoint's there)
+        img = {"fmt": "PNG", "w": 3, "h": 3, "seed": 1, "mode": "RGB", "dpi": None}
+        cd = {"kind": "cat", "cat_type": "str", "categories": ["a", "b"], "series": [{"name": "s", "values": [1, 2]}]}
+        evs = []
+        for sl_ in range(6):
+            b = dict(BOX, slide=sl_)
+            evs += [dict(b, op="add_movie", movie={"seed": 1, "len": 32}, src={"via": "stream", "pos": 0}, poster=img, psrc={"via": "stream", "pos": 0}, mime="video/mp4"),
+                    dict(b, op="add_movie", movie={"seed": 2, "len": 32}, src={"via": "stream", "pos": 0}, poster=None, psrc={"via": "stream", "pos": 0}, mime="video/mp4"),
+                    dict(b, op="add_picture", img=img, src={"via": "stream", "pos": 0}, size="none"),
+                    dict(b, op="add_chart", type="LINE", data=cd), dict(b, op="add_table", rows=2, cols=2),
+                    dict(b, op="add_ole", blob={"seed": 1, "len": 30}, src={"via": "stream", "pos": 0}, prog="XLSX", icon=None, isrc={"via": "stream", "pos": 0}, sized=False),
+                    dict(b, op="add_connector", type="ELBOW", ex=5, ey=5), dict(b, op="add_group", n=2, boxes=[BOX, BOX, BOX]),
+                    dict(b, op="add_textbox", text="t"), {"op": "notes_text", "slide": sl_, "text": "n"},
+                    {"op": "background_fill", "slide": sl_, "mode": "solid", "where": "slide", "rgb": "102030"}]
+        evs += [{"op": "checkpoint", "sink": "seekable"}, {"op": "restart"}]
+        out.append({"property": "C03", "seed": "corpus-additions-%s" % d, "tier": "pinned", "config": {"pinned": "corpus-additions-%s" % d, "max_shapes": 200, "max_slides": 40},
+                    "start": [{"deck": d}], "events": evs})
     out.extend(pair_orders())
     out.extend(after_another_producer())
     return out
